@@ -15,6 +15,13 @@
 //!   toolchain, and jobs whose stand-in compile stays "running" (it waits to be released) while other requests
 //!   are handled; the stand-in compile can also replace a directory of its root by a symlink.
 //!
+//! * leg `tc` (property C17): a real `Server` (real `TcCache`, real `OverlayBuilder`) asked by the scheduler
+//!   whether it needs a toolchain (`handle_assign_job`) while toolchains are uploaded - also by an upload that
+//!   stalls in the middle of its body and holds the cache lock - and thrown out again by the builder when they
+//!   cannot be unpacked (`handle_run_job`).  case = `( cap ( id ... ) ( op ... ) )`, ops `(assign id)`,
+//!   `(submit job content)`, `(stall job content k)`, `(release)`, `(run job)`; one observation per op:
+//!   `( res ( answer ... ) ( (id present) ... ) ( (path digest) ... ) ntmp )`.
+//!
 //! The case / observation syntax is the `Sx` format of the verification framework (numbers, `#hex` byte
 //! strings, identifiers, parenthesised lists); a small parser is included so that the repository stays
 //! self-contained.
@@ -1083,6 +1090,218 @@ fn fs2_case(case: &Sx) -> Sx {
 
 // ------------------------------------------------------------------ entry
 
+// ------------------------------------------------------------------ leg tc (C17)
+
+enum TcMsg {
+    Stalled,
+    Done(&'static str),
+}
+
+/// An upload body that hands out `k` bytes and then waits to be told to go on.
+struct StallingUpload {
+    data: std::io::Cursor<Vec<u8>>,
+    k: usize,
+    given: usize,
+    stalled: bool,
+    tx: std::sync::mpsc::Sender<TcMsg>,
+    go: std::sync::mpsc::Receiver<()>,
+}
+
+impl std::io::Read for StallingUpload {
+    fn read(&mut self, buf: &mut [u8]) -> std::io::Result<usize> {
+        if !self.stalled && self.given >= self.k {
+            self.stalled = true;
+            let _ = self.tx.send(TcMsg::Stalled);
+            let _ = self.go.recv_timeout(std::time::Duration::from_secs(60));
+        }
+        let n = if self.stalled { buf.len() } else { buf.len().min(self.k - self.given) };
+        let r = self.data.read(&mut buf[..n])?;
+        self.given += r;
+        Ok(r)
+    }
+}
+
+fn submit_sym(r: Result<anyhow::Result<SubmitToolchainResult>, ()>) -> &'static str {
+    match r {
+        Ok(Ok(SubmitToolchainResult::Success)) => "success",
+        Ok(Ok(SubmitToolchainResult::JobNotFound)) => "job_not_found",
+        Ok(Ok(SubmitToolchainResult::CannotCache)) => "cannot_cache",
+        Ok(Err(_)) => "err",
+        Err(()) => "panic",
+    }
+}
+
+fn tc_listing(dir: &Path) -> (Vec<Sx>, u64) {
+    let mut files = vec![];
+    let mut ntmp = 0;
+    for (rel, (kind, data)) in walk(dir) {
+        if kind != 'f' {
+            continue;
+        }
+        if rel.rsplit(|&c| c == b'/').next().unwrap_or(&[]).starts_with(b".sccachetmp") {
+            ntmp += 1;
+            continue;
+        }
+        let _ = data;
+        let content = std::fs::read(dir.join(OsStr::from_bytes(&rel))).unwrap_or_default();
+        let id = sccache::util::Digest::reader_sync(&content[..]).unwrap_or_default();
+        files.push(Sx::L(vec![Sx::B(rel), Sx::B(id.into_bytes())]));
+    }
+    (files, ntmp)
+}
+
+fn tc_case(case: &Sx) -> Sx {
+    use std::sync::mpsc;
+    use std::time::Duration;
+    let mut w = match World::new() {
+        Ok(w) => w,
+        Err(e) => return Sx::L(vec![Sx::sym("env_unsupported"), Sx::B(e.into_bytes())]),
+    };
+    let server = match build::OverlayBuilder::new(w.root.join("bwrap"), w.root.join("srv/build-tc"))
+        .and_then(|b| crate::Server::new(Box::new(b), &w.root.join("srv/cache-tc"), case.arg(0).num() as u64))
+    {
+        Ok(s) => std::sync::Arc::new(s),
+        Err(e) => return Sx::L(vec![Sx::sym("env_unsupported"), Sx::B(format!("{:#}", e).into_bytes())]),
+    };
+    w.server = server.clone();
+    let tcdir = w.root.join("srv/cache-tc/tc");
+    let ids: Vec<Vec<u8>> = case.arg(1).list().iter().map(|x| x.bytes().to_vec()).collect();
+    let mut njob = 0u64;
+    let mut upload: Option<(mpsc::Sender<()>, mpsc::Receiver<TcMsg>)> = None;
+    let mut waiting: Vec<mpsc::Receiver<&'static str>> = vec![];
+    let mut out = vec![];
+    for op in case.arg(2).list() {
+        let mut answers = vec![];
+        let res: &'static str = match op.tag().as_str() {
+            "assign" => {
+                njob += 1;
+                match String::from_utf8(op.arg(1).bytes().to_vec()) {
+                    Err(_) => "err",
+                    Ok(id) => {
+                        let (tx, rx) = mpsc::channel();
+                        let (srv, job) = (server.clone(), JobId(njob));
+                        std::thread::spawn(move || {
+                            let r = match catch(|| srv.handle_assign_job(job, Toolchain { archive_id: id })) {
+                                Ok(Ok(r)) => {
+                                    if r.need_toolchain {
+                                        "need"
+                                    } else {
+                                        "ready"
+                                    }
+                                }
+                                Ok(Err(_)) => "err",
+                                Err(()) => "panic",
+                            };
+                            let _ = tx.send(r);
+                        });
+                        // while an upload holds the cache the answer has to wait for it
+                        let patience = if upload.is_some() { 300 } else { 20_000 };
+                        match rx.recv_timeout(Duration::from_millis(patience)) {
+                            Ok(r) => r,
+                            Err(_) => {
+                                waiting.push(rx);
+                                "blocked"
+                            }
+                        }
+                    }
+                }
+            }
+            "submit" if upload.is_some() => "busy",
+            "submit" => {
+                let content = op.arg(2).bytes().to_vec();
+                let rdr = ToolchainReader::verif_new(Box::new(&content[..]));
+                submit_sym(catch(|| server.handle_submit_toolchain(&NullRequester, JobId(op.arg(1).num() as u64), rdr)))
+            }
+            "stall" if upload.is_some() => "busy",
+            "stall" => {
+                let (tx, rx) = mpsc::channel();
+                let (go_tx, go_rx) = mpsc::channel();
+                let body = StallingUpload {
+                    data: std::io::Cursor::new(op.arg(2).bytes().to_vec()),
+                    k: op.arg(3).num() as usize,
+                    given: 0,
+                    stalled: false,
+                    tx: tx.clone(),
+                    go: go_rx,
+                };
+                let (srv, job) = (server.clone(), JobId(op.arg(1).num() as u64));
+                std::thread::spawn(move || {
+                    let rdr = ToolchainReader::verif_new(Box::new(body));
+                    let r = submit_sym(catch(|| srv.handle_submit_toolchain(&NullRequester, job, rdr)));
+                    let _ = tx.send(TcMsg::Done(r));
+                });
+                match rx.recv_timeout(Duration::from_secs(20)) {
+                    Ok(TcMsg::Stalled) => {
+                        upload = Some((go_tx, rx));
+                        "stalled"
+                    }
+                    Ok(TcMsg::Done(r)) => r,
+                    Err(_) => "hung",
+                }
+            }
+            "release" => match upload.take() {
+                None => "idle",
+                Some((go, rx)) => {
+                    let _ = go.send(());
+                    let r = loop {
+                        match rx.recv_timeout(Duration::from_secs(20)) {
+                            Ok(TcMsg::Done(r)) => break r,
+                            Ok(TcMsg::Stalled) => continue,
+                            Err(_) => break "hung",
+                        }
+                    };
+                    for rx in waiting.drain(..) {
+                        answers.push(Sx::sym(rx.recv_timeout(Duration::from_secs(20)).unwrap_or("hung")));
+                    }
+                    r
+                }
+            },
+            "run" if upload.is_some() => "busy",
+            "run" => {
+                let command = CompileCommand {
+                    executable: "job".to_owned(),
+                    arguments: vec![],
+                    env_vars: vec![],
+                    cwd: "/".to_owned(),
+                };
+                let rdr = InputsReader::verif_new(Box::new(&[][..]));
+                match catch(|| server.handle_run_job(&NullRequester, JobId(op.arg(1).num() as u64), command, vec![], rdr)) {
+                    Ok(Ok(RunJobResult::JobNotFound)) => "job_not_found",
+                    Ok(Ok(RunJobResult::Complete(_))) => "complete",
+                    Ok(Err(_)) => "failed",
+                    Err(()) => "panic",
+                }
+            }
+            _ => "bad_op",
+        };
+        let (files, ntmp) = tc_listing(&tcdir);
+        let present = if upload.is_some() {
+            vec![]
+        } else {
+            let cache = server.cache.lock().unwrap_or_else(|e| e.into_inner());
+            ids.iter()
+                .map(|id| {
+                    let p = match String::from_utf8(id.clone()) {
+                        Ok(s) => cache.contains_toolchain(&Toolchain { archive_id: s }),
+                        Err(_) => false,
+                    };
+                    Sx::L(vec![Sx::B(id.clone()), Sx::N(p as u128)])
+                })
+                .collect()
+        };
+        out.push(Sx::L(vec![Sx::sym(res), Sx::L(answers), Sx::L(present), Sx::L(files), Sx::N(ntmp as u128)]));
+    }
+    // never leave a stalled upload (and the requests waiting behind it) behind
+    if let Some((go, rx)) = upload.take() {
+        let _ = go.send(());
+        let _ = rx.recv_timeout(Duration::from_secs(20));
+    }
+    for rx in waiting.drain(..) {
+        let _ = rx.recv_timeout(Duration::from_secs(20));
+    }
+    Sx::L(out)
+}
+
 pub fn main(args: &[String]) -> i32 {
     let leg = args.first().map(|s| s.as_str()).unwrap_or("");
     if leg == "fakejob" {
@@ -1093,6 +1312,10 @@ pub fn main(args: &[String]) -> i32 {
     if leg == "digest" {
         // the id of the toolchain archive used by the fs leg, as the real code computes it
         println!("{}", sccache::util::Digest::reader_sync(&toolchain_blob()[..]).unwrap());
+        return 0;
+    }
+    if leg == "tc_probe" {
+        println!("tc_ok");
         return 0;
     }
     if leg == "digest2" {
@@ -1122,6 +1345,7 @@ pub fn main(args: &[String]) -> i32 {
         let r = match Sx::parse(t) {
             Ok(x) => match leg {
                 "calc" => calc(&x),
+                "tc" => tc_case(&x),
                 "fs" => match &contained {
                     Ok(()) => fs_case(&x),
                     Err(e) => Sx::L(vec![Sx::sym("env_unsupported"), Sx::B(e.clone().into_bytes())]),
